@@ -212,7 +212,8 @@ def step(cfg, hist):
         if v["key"].count("/") == 1:
             v["key"] = v["key"] + "/" + name
     if cfg["dense"] and kind != "reset" and not r.viol:
-        driver.dense_invariants(r, "C09/dense", case, a, prob.f, dtype)
+        rich = name.startswith("RICH")
+        driver.dense_invariants(r, "C09/dense", case, a, prob.f, dtype, richardson=rich, rtol_rich=50 * cfg["tol"], exact=(prob.y if rich else None))
         for v in r.viol:
             if v["key"].startswith("C09/dense/") and v["key"].count("/") == 2:
                 v["key"] = v["key"] + "/" + name
@@ -234,6 +235,10 @@ def configs(ctx):
                             if ctx.quick and s != 1.0 and mi % 3:
                                 continue
                             out.append(dict(problem=pname, span=list(span), dt0=dt0, method=m, dense=dense, dtype="float64", menu=menu, s=s, tol=1e-8, against=(len(out) % 3 == 1)))
+                            if s == 1.0 and mi % 4 == 0 and m == "RK45CKSolver" and dense and pname == "osc":
+                                # Richardson wrappers of adaptive pairs (their end-slope caches live in the wrapped integrators) and an FSAL pair
+                                for mm in ("RICH:RK45CKSolver:2", "RICH:DOPRI45:2", "DOPRI45"):
+                                    out.append(dict(problem=pname, span=list(span), dt0=dt0, method=mm, dense=dense, dtype="float64", menu=menu, s=s, tol=1e-8, against=(len(out) % 3 == 1)))
                             if s == 1.0 and mi % 4 == 0 and m in ("RK4Solver", "RK45CKSolver", "ImplicitMidpoint") and dense:
                                 # single precision: another dispatch of the nonlinear solver, coarser rounding of the times
                                 out.append(dict(problem=pname, span=list(span), dt0=dt0, method=m, dense=dense, dtype="float32", menu=menu, s=s, tol=1e-4))
